@@ -31,6 +31,13 @@ CLAIMED = {
             "Model tied to samplers/base.py by exact comparison of returned batch, request sizes and warning on scripted runs.",
             "Trusted: Lean kernel; numpy unique(axis=0)/fancy-assignment contracts; the generator returns as many rows as requested (hypothesis).",
             "DESIGN.md §4 C12"),
+    "C19": ("Lean 4 proof (update rule, sample-average = arithmetic mean by invariant over any observation sequence, argmax maximality, action validity) + bit-exact differential run of MABEpsilonGreedy/MABCalibrationEnv",
+            "Proved in Lean over any ordered field: reward = relative improvement / zero with the reference moving only on improvement; "
+            "learn moves exactly the rewarded estimate by step*(reward-estimate) and increments exactly its counter; with the sentinel the "
+            "estimate equals the mean of the rewards received (any interleaving of actions, any initial value); eps=0 picks a maximal estimate; "
+            "actions are valid indices. Model tied to the code by bit-exact comparison of Q, counters, actions, rewards after every step.",
+            "Trusted: Lean kernel; IEEE + - * / equal in Lean Float and CPython; the PRNG is a tape (recorded real stream + scripted boundary values).",
+            "DESIGN.md §4 C19"),
 }
 NOT_YET = {}
 
